@@ -446,7 +446,9 @@ struct Value {
 
     inline void operator+=(const Value &val) {
         if (isObject() && val.isObject()) {
-            object_ += val.object_;
+            // val can be a member of this value: copy it before the table is rebuilt.
+            ObjectT tmp{val.object_};
+            object_ += Memory::Move(tmp);
         } else if (isArray()) {
             array_ += val;
         } else {
@@ -951,25 +953,9 @@ struct Value {
     }
 
     void Merge(const Value &val) {
-        if (isUndefined()) {
-            reset();
-            setTypeToArray();
-        }
-
-        if (isArray() && val.isArray()) {
-            Value       *src_val = val.array_.Storage();
-            const Value *end     = val.array_.End();
-
-            while (src_val < end) {
-                if (!(src_val->isUndefined())) {
-                    array_ += *src_val;
-                }
-
-                ++src_val;
-            }
-        } else if (isObject() && val.isObject()) {
-            object_ += val.object_;
-        }
+        // val can be this value or one of its members: merge a copy.
+        Value tmp{val};
+        Merge(Memory::Move(tmp));
     }
 
     inline bool IsNumber() const noexcept {
